@@ -276,6 +276,7 @@ def extra_obligations(mods, tier, seed):
     i2(P, out)
     i4(P, out)
     i3(P, E, out)
+    i5(out)
     return out
 
 
@@ -283,4 +284,114 @@ _S = {}
 
 
 def extra_evidence():
-    return {"inference_grid": _S.get("i1"), "i3_probes": sorted(I3_PROBES)}
+    return {"inference_grid": _S.get("i1"), "i3_probes": sorted(I3_PROBES), "bounded": PROPERTY.get("bounded", [])}
+
+
+# ------------------------------------------------------------------------------------------------ I5: no implicit narrowing in the emitted C++
+I5_SCRIPTS = {
+    "tuple-retype-then-read": "level = 7.25\nlevel, previous = 0, level\nmon.write(previous)\nmon.write(level)\n",
+    "tuple-mixed-new-names": "a, b = 1, 2.5\nc, d = b, a\nmon.write(c)\nmon.write(d)\n",
+    "swap-float-float": "a = 1.5\nb = 2.5\na, b = b, a\nmon.write(a)\nmon.write(b)\n",
+    "tuple-in-loop": "x = 0.5\ny = 2\nwhile True:\n    p, q = x * 2, y + 1\n    mon.write(p)\n    mon.write(q)\n    x = x + 0.25\n    sleep(1)\n",
+    "clamp-helper-mixed-returns": "def clamp(v, hi):\n    if v > hi:\n        return hi\n    return v\nr = clamp(3.75, 10)\nmon.write(r)\ns = clamp(12.5, 10)\nmon.write(s)\n",
+    "guard-helper-int-then-float": "def part(n):\n    if n == 0:\n        return 0\n    return n / 4\nr = part(3)\nmon.write(r)\nz = part(0)\nmon.write(z)\n",
+    "helper-bool-and-float-returns": "def pick(k):\n    if k > 2:\n        return True\n    return 0.75\nr = pick(1)\nmon.write(r)\n",
+    "float-from-branch-join": "c = 1\nif c > 0:\n    g = 1.5\nelse:\n    g = 2\nmon.write(g)\n",
+    "float-accumulator-in-for": "acc = 0.0\nfor i in range(4):\n    acc = acc + i * 0.5\nmon.write(acc)\n",
+    "float-first-assigned-in-for": "for i in range(3):\n    half = i * 0.5\nmon.write(half)\n",
+    "string-first-assigned-in-for": "for i in range(2):\n    tag = 'n' + str(i)\nmon.write(tag)\n",
+    "float-first-assigned-in-for-in-function": "def last_half(n):\n    for i in range(n):\n        h = i * 0.5\n    return h\nr = last_half(3)\nmon.write(r)\n",
+    "float-first-assigned-in-for-in-main-loop": "while True:\n    for i in range(3):\n        part = i * 0.25\n    mon.write(part)\n    sleep(1)\n",
+    "param-float-division-result": "def ratio(a, b):\n    return a / b\nr = ratio(7, 2)\nmon.write(r)\n",
+    "list-of-floats-element": "ws = [0.5, 1.5]\nk = 1\nv = ws[k]\nmon.write(v)\n",
+    "abs-min-max-float": "x = -2.5\na = abs(x)\nb = max(x, 1)\nc = min(x, 0.5)\nmon.write(a)\nmon.write(b)\nmon.write(c)\n",
+    "conditional-float-int": "c = 1\nv = 2.5 if c > 0 else 1\nmon.write(v)\n",
+    "int-then-float-reassign": "x = 1\nx = 2.5\nmon.write(x)\n",
+}
+
+
+def narrowing_sites(cpp):
+    """implicit float->integer conversions at initialisations, assignments and returns of the emitted sketch (clang's AVR AST)"""
+    from cxxvc import cxx2py
+    tu, _ = cxx2py.run_clang(cpp)
+    sites = []
+
+    def in_main(n, st):
+        loc = n.get("loc", {})
+        f = loc.get("file") or loc.get("spellingLoc", {}).get("file") or loc.get("expansionLoc", {}).get("file")
+        if f is not None:
+            st["file"] = f
+        return st.get("file", "").endswith("unit.cpp")
+
+    def strip(e):
+        while e and e.get("kind") in ("ParenExpr", "ExprWithCleanups", "MaterializeTemporaryExpr", "CXXBindTemporaryExpr"):
+            e = (e.get("inner") or [None])[0]
+        return e
+
+    def narrowing(e):
+        e = strip(e)
+        return bool(e) and e.get("kind") == "ImplicitCastExpr" and e.get("castKind") == "FloatingToIntegral"
+
+    def walk(n, fn):
+        k = n.get("kind")
+        line = (n.get("loc") or {}).get("line") or (n.get("range", {}).get("begin") or {}).get("line")
+        if k == "VarDecl" and n.get("inner") and not n.get("name", "").startswith("__redu") and narrowing(n["inner"][-1]):
+            sites.append(f"{fn}: initialisation of `{n.get('type', {}).get('qualType')} {n.get('name')}` from a float expression")
+        if k in ("BinaryOperator", "CompoundAssignOperator") and n.get("opcode") in ("=", "+=", "-=", "*=", "/=") and len(n.get("inner", [])) == 2:
+            lhs = strip(n["inner"][0])
+            name = (lhs.get("referencedDecl") or {}).get("name", "?") if lhs else "?"
+            if not name.startswith("__") and (narrowing(n["inner"][1]) or (k == "CompoundAssignOperator" and "float" in str(n.get("computeResultType", {}).get("qualType", ""))
+                                                                          and "int" in str(n.get("type", {}).get("qualType", "")))):
+                sites.append(f"{fn}: assignment `{name} {n.get('opcode')} <float expression>` into a {n.get('type', {}).get('qualType')}")
+        if k == "ReturnStmt" and n.get("inner") and narrowing(n["inner"][0]):
+            sites.append(f"{fn}: return of a float expression from a function returning an integer type")
+        for ch in n.get("inner", []) or []:
+            walk(ch, fn)
+    st = {}
+    for n in tu.get("inner", []):
+        if not in_main(n, st):
+            continue
+        if n.get("kind") == "FunctionDecl" and not n.get("name", "").startswith("__redu"):
+            walk(n, n.get("name"))
+        elif n.get("kind") == "VarDecl":
+            walk(n, "<global>")
+    return sorted(set(sites))
+
+
+def _i5_one(args):
+    name, src = args
+    from progs.diff import transpile, differential
+    cpp, err = transpile(src)
+    if cpp is None:
+        return name, "rejected", err, src
+    try:
+        sites = narrowing_sites(cpp)
+    except Exception as ex:
+        return name, "does-not-compile", str(ex)[-300:], src
+    if sites:
+        return name, "narrows", sites, src
+    # values are compared numerically: a joined (float) type prints 10 as 10.00, which is what the property asks for
+    r = differential(src, 2, strict_kinds=False)
+    if r["verdict"] not in ("same", "python-undefined"):
+        return name, r["verdict"], r.get("first_difference") or r.get("detail"), src
+    return name, "ok", None, src
+
+
+def i5(out):
+    import multiprocessing as mp
+    from progs.corpus import CORPUS, HEAD as CH
+    scripts = {f"typed/{k}": CH + v for k, v in I5_SCRIPTS.items()}
+    scripts.update({f"core/{k}": v for k, v in CORPUS.items()})
+    t0 = time.time()
+    with mp.Pool(16) as pool:
+        res = pool.map(_i5_one, sorted(scripts.items()), chunksize=1)
+    per = round((time.time() - t0) / max(1, len(res)), 3)
+    for name, verdict, detail, src in res:
+        if name.startswith("core/") and verdict not in ("narrows",):
+            verdict_ok = True         # behaviour of the core corpus is C01's obligation; here only narrowing is judged
+        else:
+            verdict_ok = verdict in ("ok", "rejected")
+        out.append({"name": f"C02/I5/{name}", "status": "discharged" if verdict_ok else "sat", "backend": "clang-avr+fwsim", "bounded": True,
+                    "where": f"script '{name}': no float expression is stored into / returned as an integer in the emitted C++ (clang AST); typed scripts also print CPython's values [{verdict}]",
+                    "time": per, "replay": {"script": src, "verdict": verdict, "detail": detail}, "replay_confirmed": not verdict_ok})
+    PROPERTY["bounded"] = [{"check": "I5 narrowing scan + differential", "bound": f"{len(scripts)} scripts"}]
